@@ -343,7 +343,7 @@ func init() {
 			case 1, 2: // feature
 				f := c02Feature(c)
 				fm := featModel(in, f)
-				e := jdoc{"k": "feat", "f": fm, "err": "", "same": 0, "nt": 1, "routes": 0, "stable": 0}
+				e := jdoc{"k": "feat", "f": fm, "err": "", "same": 0, "nt": 1, "routes": 0, "stable": 0, "idb": 1}
 				setCurrent("geojson.Feature", fm)
 				site := guard(func() {
 					data, err := f.MarshalJSON()
@@ -378,6 +378,18 @@ func init() {
 						return
 					}
 					e["decb"] = featModel(in, bf)
+					// an integer id is still that integer after BSON (which has integer types)
+					if want, isInt := f.ID.(int); isInt {
+						e["idb"] = 0
+						switch got := bf.ID.(type) {
+						case int32:
+							e["idb"] = b2i(int(got) == want)
+						case int64:
+							e["idb"] = b2i(int(got) == want)
+						case int:
+							e["idb"] = b2i(got == want)
+						}
+					}
 					if err := json.Unmarshal(data, reF); err != nil {
 						e["err"] = "reused value: " + err.Error()
 						return
@@ -505,6 +517,48 @@ func init() {
 				}
 				c.emit(e)
 			}
+		}
+		// integer feature ids through BSON, which has integer types: the same integer comes back, also beyond 2^53
+		// (JSON numbers decode to float64, so such ids are outside the JSON half of the statement)
+		for i := 0; i < c.pick(200, 2000); i++ {
+			id := []int{1<<53 + 1, 1<<62 + 3, -(1<<53 + 5), 1<<53 - 1, 1 << 31, -(1 << 31) - 1, 7, 0, -1}[c.rng.Intn(9)] + c.rng.Intn(3)
+			f := geojson.NewFeature(orb.Point{1, 2})
+			f.ID = id
+			e := jdoc{"k": "bsonid", "idb": 0, "infc": i % 2, "nt": 1}
+			setCurrent("geojson BSON id", id)
+			site := guard(func() {
+				var got interface{}
+				if i%2 == 0 {
+					b, err := bson.Marshal(f)
+					bf := &geojson.Feature{}
+					if err != nil || bson.Unmarshal(b, bf) != nil {
+						return
+					}
+					got = bf.ID
+				} else {
+					fc := geojson.NewFeatureCollection()
+					fc.Append(f)
+					b, err := bson.Marshal(fc)
+					bfc := &geojson.FeatureCollection{}
+					if err != nil || bson.Unmarshal(b, bfc) != nil || len(bfc.Features) != 1 {
+						return
+					}
+					got = bfc.Features[0].ID
+				}
+				switch v := got.(type) {
+				case int32:
+					e["idb"] = b2i(int(v) == id)
+				case int64:
+					e["idb"] = b2i(int(v) == id)
+				case int:
+					e["idb"] = b2i(v == id)
+				}
+			})
+			if site != "" {
+				c.emit(panicEvent("geojson BSON id", site, id))
+				continue
+			}
+			c.emit(e)
 		}
 	})
 }
